@@ -217,8 +217,9 @@ func runClassify(in input) lib.Case {
 
 	n := newFnet(false, 1, in.NH)
 	defer n.cleanup()
-	if r, _, _ := n.exec(opj{K: "send", P: 0, M: []int{1}}); r != 1 {
-		return lib.Case{Discard: true}
+	if r, _, to := n.exec(opj{K: "send", P: 0, M: []int{1}}); r != 1 {
+		// the set-up Send towards a live scripted peer failed or did not return
+		return cutCase("classify:"+in.Err, "Send to a live peer (set-up)", to, r)
 	}
 	c := n.conns[0]
 	waitUntil(c.idle, 5*time.Second)
@@ -229,7 +230,7 @@ func runClassify(in input) lib.Case {
 		// the receive loop sits inside a handler holding the router's mutex
 		n.abandoned = true
 		wedgedKinds["classify"]++
-		return lib.Case{Coq: "CCluster 1 1 false true true true", Class: "classify:" + in.Err + "+blocked", Nontrivial: true,
+		return lib.Case{Coq: "CCluster 1 1 false true true true true", Class: "classify:" + in.Err + "+blocked", Nontrivial: true,
 			Obs: "after the error the router did not answer any more (table query blocked)"}
 	}
 	n.mu.Lock()
